@@ -333,6 +333,10 @@ pub struct Server {
 
     /// Prepared statement being currently registered on the server.
     registering_prepared_statement: VecDeque<String>,
+
+    /// Prepared statements evicted from the cache that still exist on the server.
+    /// The batch being assembled may use them, so they are only closed before the next one.
+    evicted_prepared_statements: Vec<String>,
 }
 
 impl Server {
@@ -837,6 +841,7 @@ impl Server {
                             )),
                         },
                         registering_prepared_statement: VecDeque::new(),
+                        evicted_prepared_statements: Vec::new(),
                     };
 
                     return Ok(server);
@@ -1128,7 +1133,23 @@ impl Server {
             None => return false,
         };
 
-        let has_it = cache.get(name).is_some();
+        let mut has_it = cache.get(name).is_some();
+
+        // Evicted but not closed yet: it is still on the server, take it back.
+        if !has_it {
+            if let Some(position) = self
+                .evicted_prepared_statements
+                .iter()
+                .position(|evicted_name| evicted_name == name)
+            {
+                self.evicted_prepared_statements.swap_remove(position);
+                if let Some(evicted_name) = self.add_prepared_statement_to_cache(name) {
+                    self.evicted_prepared_statements.push(evicted_name);
+                }
+                has_it = true;
+            }
+        }
+
         if has_it {
             self.stats.prepared_cache_hit();
         } else {
@@ -1186,15 +1207,15 @@ impl Server {
                 bytes.extend_from_slice(&parse_bytes);
             }
 
-            // If we evict something, we need to close it on the server
-            // We do this by adding it to the messages we're sending to the server before the sync
+            // If we evict something, we need to close it on the server, but not now: the batch
+            // this statement is registered for may use the evicted one as well.
+            // See close_evicted_prepared_statements().
             if let Some(evicted_name) = self.add_prepared_statement_to_cache(&parse.name) {
                 self.remove_prepared_statement_from_cache(&evicted_name);
-                let close_bytes: BytesMut = Close::new(&evicted_name).try_into()?;
-                bytes.extend_from_slice(&close_bytes);
+                self.evicted_prepared_statements.push(evicted_name);
             };
 
-            // If we have a parse or close we need to send to the server, send them and sync
+            // If we have a parse we need to send to the server, send it and sync
             if !bytes.is_empty() {
                 bytes.extend_from_slice(&sync());
 
@@ -1217,6 +1238,35 @@ impl Server {
         } else {
             Ok(())
         }
+    }
+
+    /// Close on the server the prepared statements that were evicted from the cache
+    /// while earlier batches were assembled. Nothing is buffered for the server at this point.
+    pub async fn close_evicted_prepared_statements(&mut self) -> Result<(), Error> {
+        if self.evicted_prepared_statements.is_empty() {
+            return Ok(());
+        }
+
+        let mut bytes = BytesMut::new();
+
+        for evicted_name in std::mem::take(&mut self.evicted_prepared_statements) {
+            let close_bytes: BytesMut = Close::new(&evicted_name).try_into()?;
+            bytes.extend_from_slice(&close_bytes);
+        }
+
+        bytes.extend_from_slice(&sync());
+
+        self.send(&bytes).await?;
+
+        loop {
+            self.recv(None).await?;
+
+            if !self.is_data_available() {
+                break;
+            }
+        }
+
+        Ok(())
     }
 
     /// If the server is still inside a transaction.
@@ -1364,6 +1414,7 @@ impl Server {
                 if let Some(cache) = &mut self.prepared_statement_cache {
                     cache.clear();
                 }
+                self.evicted_prepared_statements.clear();
             };
 
             self.query(&reset_string).await?;
